@@ -555,6 +555,12 @@ func (tb *TermBuilder) load(addr ssa.Value) *Term {
 		}
 		return tb.Of(a)
 	case *ssa.IndexAddr:
+		// an element of a slice literal (a table of scalars / slices): what the literal put there
+		if _, isStruct := a.Type().(*types.Pointer).Elem().Underlying().(*types.Struct); !isStruct {
+			if t := tb.tableElem(a, -1); t != nil {
+				return t
+			}
+		}
 		return tb.Of(a)
 	case *ssa.Global:
 		return tb.Of(a)
